@@ -74,6 +74,7 @@ def check(run):
         raise AnalysisError('anchored class vanished: AxisymmetricVoxel')
     _r1(run, prog, ci)
     _r2(run, ci)
+    _r3(run, prog, ci)
     from ..cachekey import check_caches
     check_caches(run, [ci.mod], 'C17-K')
 
@@ -267,6 +268,53 @@ def _r1(run, prog, ci):
     run.floor('C17-R1', 8)
 
 
+def _r3(run, prog, ci):
+    """R3: the triangles index the vertex array that is stored -- triangulate2d is given self._vertices as it stands at that point (a local
+    bound to it *before* the field is rebound to another array is stale); results handed out by the collection are fresh arrays."""
+    run.describe('C17-R3', 'triangulation computed from the stored vertex order; returned arrays are not buffers kept on the instance')
+    init = ci.methods.get('__init__')
+    if init is None:
+        raise AnalysisError('anchored method vanished: AxisymmetricVoxel.__init__')
+    K = ci.mod.name + '|AxisymmetricVoxel|__init__|'
+    calls = [c for c in ast.walk(init) if isinstance(c, ast.Call) and dotted(c.func) == 'triangulate2d' and c.args]
+    rebinds = [st for st in ast.walk(init) if isinstance(st, ast.Assign) and any(norm(t) == 'self._vertices' for t in st.targets)]
+    for c in calls:
+        run.subject('C17-R3')
+        a = c.args[0]
+        txt = norm(a)
+        if txt in ('self._vertices', 'self._vertices.base', 'np.asarray(self._vertices)'):
+            run.ok('C17-R3', 'triangulation source', txt, sample=False)
+            continue
+        if isinstance(a, ast.Name):
+            defs = [st for st in ast.walk(init) if isinstance(st, ast.Assign) and any(isinstance(t, ast.Name) and t.id == a.id for t in st.targets)]
+            if len(defs) == 1 and norm(defs[0].value) in ('self._vertices', 'self._vertices.base', 'np.asarray(self._vertices)'):
+                later = [r for r in rebinds if defs[0].lineno < r.lineno < c.lineno]
+                if later:
+                    run.fail('C17-R3', K + 'stale-vertices', ci.mod.relpath, c.lineno,
+                             "triangulate2d is given '%s', bound to the vertex array at line %d, but self._vertices is rebound at line %d before the "
+                             "call: the triangle indices refer to the old vertex order (the winding normalisation reverses it)"
+                             % (a.id, defs[0].lineno, later[0].lineno))
+                else:
+                    run.ok('C17-R3', 'triangulation source', '%s = %s' % (a.id, norm(defs[0].value)), sample=False)
+                continue
+        run.undecided('C17-R3', 'triangulation source', 'argument %s not traced to the stored vertices' % txt[:40])
+    from ._purity import returns_held_buffer
+    for cq, c2 in sorted(prog.classes.items()):
+        if c2.mod is not ci.mod:
+            continue
+        for mname, m in sorted(c2.methods.items()):
+            if mname.startswith('_'):
+                continue
+            for r, fld in returns_held_buffer(m):
+                run.subject('C17-R3')
+                run.fail('C17-R3', '%s|%s|%s|held-result:%s' % (ci.mod.name, c2.name, mname, fld), ci.mod.relpath, r.lineno,
+                         "%s.%s fills and returns an array that is also kept in self.%s and reused by the next call: a result the caller still "
+                         "holds is overwritten, so it no longer is the area-mean of the function it was computed for" % (c2.name, mname, fld))
+    run.subject('C17-R3')
+    run.ok('C17-R3', 'returned arrays', 'checked on every public method of the module', sample=False)
+    run.floor('C17-R3', 2)
+
+
 def _r2(run, ci):
     run.describe('C17-R2', 'sampling wiring: cumulative triangle areas, lookup with total_area * uniform(), the chosen triangle\'s vertices, mean of samples')
     K = ci.mod.name + '|AxisymmetricVoxel|emissivity_from_function|'
@@ -351,6 +399,11 @@ def _r2(run, ci):
 
 
 MUTANTS = [
+    dict(name='triangulation-of-the-unreversed-vertices', file=FILE,
+         find="        if not winding2d(self._vertices):\n            self._vertices[:] = self._vertices[::-1]\n\n        self._triangles = triangulate2d(self._vertices.base)",
+         replace="        coords = self._vertices.base\n        if not winding2d(self._vertices):\n            self._vertices = coords[::-1].copy()\n\n        self._triangles = triangulate2d(coords)", expect='C17-R3'),
+    dict(name='emissivities-buffer-kept-on-the-collection', file=FILE,
+         find="        emissivities = np.zeros(self.count)\n", replace="        emissivities = getattr(self, '_emissivities', None)\n        if emissivities is None:\n            emissivities = self._emissivities = np.zeros(self.count)\n", expect='C17-R3'),
     dict(name='closing-term-index-slip', file=FILE, find="            area += x[num_vertices - 1] * y[0] - x[0] * y[num_vertices - 1]\n        return abs(area) / 2", replace="            area += x[num_vertices - 1] * y[0] - x[0] * y[num_vertices - 2]\n        return abs(area) / 2", expect='C17-R1'),
     dict(name='centroid-divisor', file=FILE, find="        cx /= (6 * area)", replace="        cx /= (3 * area)", expect='C17-R1'),
     dict(name='abs-dropped-from-area', file=FILE, find="        return abs(area) / 2", replace="        return area / 2", expect='C17-R1'),
